@@ -101,6 +101,60 @@ fn problem_mode(r: &mut Rng, fam: usize, n: usize, p: usize, dkind: usize, wkind
     Prob { fam, n, p, x, y, w, wkind, off, alpha, tol, beta, dkind }
 }
 
+/// evaluation points of the coverage audit: the same simulation as `problem_mode`, with the regimes the quantifier names but the
+/// first generator never drew.  bmode 0: slopes scaled by 1/sqrt(p-1) (as before); 1: EVERY coefficient (intercept too) uniform in
+/// [-1.5, 1.5]; 2: every coefficient exactly +-1.5 (corner of the stated box); 3: intercept only (all slopes 0: the fit has nothing to find).
+/// wmode 0 none, 1 integer 1..3, 2 real 0.5..2 (as before), 3 integer 0..3 (zero = observation dropped), 4 integer 1..12,
+/// 5 real log-uniform 0.05..20, 6 constant 2.  omode 0 none, 1 +-0.5, 2 exposure log(100..800) (as before), 3 +-2.
+/// noise: standard deviation of the Gaussian response (0.7 before).
+#[derive(Clone, Copy)]
+struct Cfg { bmode: u8, wmode: u8, omode: u8, noise: f64 }
+fn problem_x(r: &mut Rng, fam: usize, n: usize, p: usize, dkind: usize, c: Cfg, alpha: f64, tol: f64) -> Prob {
+    let x = design_matrix(r, n, p, dkind);
+    let beta: Vec<f64> = match c.bmode {
+        0 => { let mut b: Vec<f64> = (0..p).map(|_| r.uniform(-1.5, 1.5) / ((p.max(2) - 1) as f64).sqrt()).collect(); b[0] = r.uniform(-1.0, 1.0); b }
+        1 => (0..p).map(|_| r.uniform(-1.5, 1.5)).collect(),
+        2 => (0..p).map(|_| if r.coin(0.5) { 1.5 } else { -1.5 }).collect(),
+        _ => { let mut b = vec![0.0; p]; b[0] = r.uniform(-1.5, 1.5); b }
+    };
+    let off = match c.omode { 0 => None, 1 => Some((0..n).map(|_| r.uniform(-0.5, 0.5)).collect::<Vec<f64>>()),
+        2 => Some((0..n).map(|_| r.uniform((100.0f64).ln(), (800.0f64).ln())).collect()), _ => Some((0..n).map(|_| r.uniform(-2.0, 2.0)).collect()) };
+    let (w, wkind): (Option<Vec<f64>>, usize) = match c.wmode {
+        0 => (None, 0),
+        1 => (Some((0..n).map(|_| r.range(1, 3) as f64).collect()), 1),
+        2 => (Some((0..n).map(|_| r.uniform(0.5, 2.0)).collect()), 2),
+        3 => (Some((0..n).map(|_| r.range(0, 3) as f64).collect()), 1),
+        4 => (Some((0..n).map(|_| r.range(1, 12) as f64).collect()), 1),
+        5 => (Some((0..n).map(|_| (r.uniform((0.05f64).ln(), (20.0f64).ln())).exp()).collect()), 2),
+        _ => (Some(vec![2.0; n]), 2),
+    };
+    // zero weights may remove every observation of an indicator group (or of the reference group): the weighted design is then rank
+    // deficient, no MLE exists without the penalty and the information matrix has no inverse - outside the quantifier ("so that the MLE
+    // exists").  Such a draw keeps its pattern but the dropped observations come back with weight 1.
+    let w = match w { Some(mut w) if c.wmode == 3 => {
+        let mut h = vec![0.0; p * p]; for i in 0..n { for j in 0..p { for k in 0..p { h[j * p + k] += x[i * p + j] * w[i] * x[i * p + k]; } } }
+        let mut eye = vec![0.0; p * p]; for j in 0..p { eye[j * p + j] = 1.0; }
+        if gauss(&h, &eye, p, p).is_none() { for v in w.iter_mut() { if *v == 0.0 { *v = 1.0; } } }
+        Some(w) } other => other };
+    let mut y = vec![0.0; n];
+    for i in 0..n {
+        let mut eta = 0.0; for j in 0..p { eta += x[i * p + j] * beta[j]; }
+        if let Some(o) = &off { eta += o[i]; }
+        let mu = ref_mu(fam, eta);
+        y[i] = match fam {
+            0 => mu + c.noise * r.normal(),
+            1 => if r.unit() < mu { 1.0 } else { 0.0 },
+            2 | 3 => {
+                if mu > 30.0 { (mu + mu.sqrt() * r.normal()).round().max(0.0) }
+                else { let l = (-mu).exp(); let mut k = 0.0; let mut pr = r.unit(); while pr > l { k += 1.0; pr *= r.unit(); } k }
+            }
+            4 => { let mut s = 0.0; for _ in 0..3 { s -= (1.0 - r.unit()).ln(); } mu * s / 3.0 }
+            _ => -mu * (1.0 - r.unit()).ln(),
+        };
+    }
+    Prob { fam, n, p, x, y, w, wkind, off, alpha, tol, beta, dkind }
+}
+
 fn make_glm(pr: &Prob) -> GLM {
     let mut g = GLM::new(FAMS[pr.fam].0);
     g.set_penalty(pr.alpha).set_tolerance(pr.tol);
@@ -126,7 +180,9 @@ fn ref_score(pr: &Prob, beta: &[f64]) -> (Vec<f64>, Vec<f64>) {
     for i in 0..n {
         let mu = ref_mu(pr.fam, eta[i]);
         let wi = pr.w.as_ref().map(|w| w[i]).unwrap_or(1.0);
-        let t = wi * (pr.y[i] - mu) * ref_dmu(pr.fam, mu) / ref_var(pr.fam, mu);
+        // (dmu / var first: for the log link dmu * (y - mu) is of order mu^2 and overflows from mu ~ 1e154 on, which made |s| <= tol * scale
+        //  read inf <= inf; found by the coverage audit)
+        let t = wi * (pr.y[i] - mu) * (ref_dmu(pr.fam, mu) / ref_var(pr.fam, mu));
         for j in 0..p { s[j] += pr.x[i * p + j] * t; sc[j] += (pr.x[i * p + j] * t).abs(); }
     }
     for j in 1..p { s[j] -= pr.alpha * beta[j]; sc[j] += (pr.alpha * beta[j]).abs(); }
@@ -140,7 +196,7 @@ fn ref_fisher(pr: &Prob, beta: &[f64]) -> Vec<f64> {
         let mu = ref_mu(pr.fam, eta[i]);
         let wi = pr.w.as_ref().map(|w| w[i]).unwrap_or(1.0);
         let d = ref_dmu(pr.fam, mu);
-        let ww = wi * d * d / ref_var(pr.fam, mu);
+        let ww = wi * d * (d / ref_var(pr.fam, mu));
         for j in 0..p { for k in 0..p { h[j * p + k] += pr.x[i * p + j] * ww * pr.x[i * p + k]; } }
     }
     h
@@ -148,6 +204,19 @@ fn ref_fisher(pr: &Prob, beta: &[f64]) -> Vec<f64> {
 fn ref_deviance(pr: &Prob, beta: &[f64], weighted: bool) -> f64 {
     let eta = ref_eta(pr, &pr.x, pr.off.as_ref(), beta);
     (0..pr.n).map(|i| (if weighted { pr.w.as_ref().map(|w| w[i]).unwrap_or(1.0) } else { 1.0 }) * ref_unit_dev(pr.fam, pr.y[i], ref_mu(pr.fam, eta[i]))).sum()
+}
+/// sum of the ABSOLUTE values of the terms the (weighted) deviance is added up from, in the form the family evaluates them (Poisson:
+/// mu - y - y ln mu + y ln y, four terms of the size of y ln y that cancel down to the unit deviance): the rounding error of a deviance,
+/// the implementation's as well as the reference's, is a small multiple of 2^-53 times this, whatever the order of summation
+fn ref_deviance_terms(pr: &Prob, beta: &[f64]) -> f64 {
+    let eta = ref_eta(pr, &pr.x, pr.off.as_ref(), beta);
+    (0..pr.n).map(|i| { let (y, mu) = (pr.y[i], ref_mu(pr.fam, eta[i])); let w = pr.w.as_ref().map(|w| w[i]).unwrap_or(1.0);
+        w.abs() * match pr.fam {
+            0 => (y - mu) * (y - mu),
+            1 => 2.0 * ((y * mu.ln()).abs() + ((1.0 - y) * (1.0 - mu).ln()).abs()),
+            2 | 3 => 2.0 * (mu.abs() + y.abs() + (y * mu.ln()).abs() + if y > 0.0 { (y * y.ln()).abs() } else { 0.0 }),
+            _ => 2.0 * (((y - mu) / mu).abs() + (y / mu).ln().abs()),
+        } }).sum()
 }
 /// Gauss-Jordan with partial pivoting: solves A X = B (B with m columns); None when singular
 fn gauss(a: &[f64], b: &[f64], p: usize, m: usize) -> Option<Vec<f64>> {
@@ -167,12 +236,326 @@ fn gauss(a: &[f64], b: &[f64], p: usize, m: usize) -> Option<Vec<f64>> {
 }
 fn tolfac(fam: usize, tol: f64) -> f64 { 100.0 * tol + if canonical(fam) { 0.0 } else { 10.0 * tol.sqrt() } + 1e-7 }
 
+/// reach of the failure search, printed to stderr when HARNESS_C06_STATS is set (what was evaluated, not what is demanded)
+#[derive(Default)]
+struct Stats { c: std::collections::BTreeMap<String, u64> }
+impl Stats {
+    fn bump(&mut self, k: String) { *self.c.entry(k).or_insert(0) += 1; }
+    fn max(&mut self, k: String, v: u64) { let e = self.c.entry(k).or_insert(0); if v > *e { *e = v; } }
+}
+
+fn add(out: &mut Vec<Finding>, class: &str, what: String, input: String) { if !out.iter().any(|f| f.class == class) { out.push(Finding { class: class.into(), what, input }); } }
+
+/// first iteration budget for which fit reports Ok (0: none up to `budget`): every budget up to 100 is tried; above that by bisection,
+/// Ok being monotone in the budget because the loop leaves at the first iteration whose test succeeds
+fn first_ok(pr: &Prob, budget: usize) -> usize {
+    let okk = |k: usize| matches!(run_fit(pr, k), Ok((true, _)));
+    if budget <= 100 { for k in 1..=budget { if okk(k) { return k; } } return 0; }
+    if !okk(budget) { return 0; }
+    let (mut lo, mut hi) = (1usize, budget);
+    while hi - lo > 1 { let mid = (lo + hi) / 2; if okk(mid) { hi = mid } else { lo = mid } }
+    hi
+}
+
+/// every clause of the property on one generated problem.  `it` thins out the two most expensive comparisons on the first block (NB: there
+/// `it % 3 == 0` / `it % 4 == 0` also fix the family index `it % 6`: replicated data only Gaussian / Poisson, unit weights only the even
+/// families); `audit` = a point of the coverage audit: both comparisons always, a larger iteration budget on a second try, more permutations
+fn examine(pr: &Prob, it: usize, r: &mut Rng, rx: &mut Rng, out: &mut Vec<Finding>, st: &mut Stats, blk: &str, audit: bool) {
+    let (fam, n, p, alpha, tol) = (pr.fam, pr.n, pr.p, pr.alpha, pr.tol);
+    let inp = pr.describe();
+    let wtag = if pr.wkind == 0 { "" } else { "weighted:" };
+    crumb(&inp);
+    // (a) one iteration can never have converged: must be Err
+    match run_fit(&pr, 1) {
+        Ok((true, _)) => add(out, "status:ok-after-one-iteration", "fit(.., max_iter = 1) returned Ok although no change of the deviance has been observed yet".into(), inp.clone()),
+        _ => {}
+    }
+    if audit { if let Ok((true, _)) = run_fit(&pr, 0) { add(out, "status:ok-after-one-iteration", "fit(.., max_iter = 0) returned Ok although no change of the deviance has been observed".into(), inp.clone()); } }
+    let fname = FAMS[fam].1;
+    st.bump(format!("{} {} tried", blk, fname));
+    // iteration budget: 100 as before; a fit that has not converged by then is tried once more with BIG (slow starts: the loop
+    // begins at intercept = mean(y) on the LINK scale, so a log-link fit of counts in the hundreds needs about mean(y) steps)
+    const BIG: usize = 3000;
+    let mut budget = 100usize;
+    let (mut ok, mut g) = match run_fit(&pr, budget) { Ok(v) => v, Err(_) => { st.bump(format!("{} {} PANIC", blk, fname)); return } };
+    if !ok && audit {
+        st.bump(format!("{} {} err(100)", blk, fname));
+        budget = BIG;
+        match run_fit(&pr, budget) { Ok(v) => { ok = v.0; g = v.1; } Err(_) => { st.bump(format!("{} {} PANIC", blk, fname)); return } }
+    }
+    if !ok { st.bump(format!("{} {} err({})", blk, fname, budget)); st.bump(format!("{} {} err({}) coefficients {}", blk, fname, budget, if g.coef().unwrap().iter().all(|c| c.is_finite()) { "finite" } else { "NaN/inf" })); st.bump(format!("{} tol=1e-{:02} err", blk, -tol.log10().round() as i64)); return; }
+    if budget > 100 { st.bump(format!("{} {} ok only with budget {}", blk, fname, budget)); }
+    st.bump(format!("{} {} ok", blk, fname));
+    st.bump(format!("{} tol=1e-{:02} ok", blk, -tol.log10().round() as i64));
+    st.max(format!("{} {} max n ok", blk, fname), n as u64);
+    st.bump(format!("{} {} ok p={}", blk, fname, p));
+    if pr.w.is_some() && pr.off.is_some() && alpha > 0.0 { st.bump(format!("{} {} ok weights+offsets+penalty", blk, fname)); }
+    let coef = g.coef().unwrap().to_vec();
+    st.max(format!("{} {} max |coef| x100 ok", blk, fname), (coef.iter().fold(0.0f64, |m, c| m.max(c.abs())) * 100.0) as u64);
+    st.max(format!("{} {} max |beta_true| x100 ok", blk, fname), (pr.beta.iter().fold(0.0f64, |m, c| m.max(c.abs())) * 100.0) as u64);
+    if coef.iter().any(|c| !c.is_finite()) { add(out, "status:ok-with-nonfinite-coefficients", format!("fit returned Ok with coefficients {:?}", coef), inp.clone()); return; }
+    // the quantifier is over data for which the MLE exists (|beta| <= 1.5): a (quasi-)separated sample drives the
+    // coefficients off to infinity until the deviance stops changing; such fits are outside the property
+    // (Bernoulli only: for the other families the simulated data always have a finite MLE near the generating coefficients, and a
+    //  diverging coefficient of a count model drives its own score to 0, so the check below is still satisfied)
+    let mut diverged = coef.iter().any(|c| c.abs() > 10.0);
+    // (a loose tolerance stops a separated Bernoulli fit before any coefficient has passed 10: carry the same iteration 40 steps further
+    //  with tolerance 0; if it runs off, or ends in NaN, no MLE exists)
+    if fam == 1 && !diverged && audit {
+        let mut q0 = pr.clone(); q0.tol = 0.0;
+        let js = first_ok(&pr, budget);
+        if let Ok((_, gc)) = run_fit(&q0, js + 40) { if gc.coef().unwrap().iter().any(|c| !(c.abs() <= 10.0)) { diverged = true; st.bump(format!("{} {} separated (continued iteration diverges)", blk, fname)); } }
+    }
+    if fam == 1 && diverged { return; }
+    let tf = tolfac(fam, tol);
+    // (b) penalised score equations at the returned coefficients
+    let (s, sc) = ref_score(&pr, &coef);
+    let bad: Vec<usize> = (0..p).filter(|&j| !(s[j].is_finite() && sc[j].is_finite() && s[j].abs() <= tf * sc[j].max(1.0))).collect();
+    if !bad.is_empty() {
+        // WHICH failure: carry the same iteration one step past the point where it reported Ok (tolerance 0: the test never succeeds). If the
+        // coefficients still move by more than the allowance used for agreement of coefficients everywhere below, the iteration had not
+        // converged at all (Fisher scoring with a non-canonical link can settle into a period-2 oscillation) and two consecutive deviances agreed
+        // by coincidence: a failure of the stopping rule (class status:ok-while-coefficients-still-moving), not of the scoring step
+        let js = first_ok(&pr, budget);
+        let mut q0 = pr.clone(); q0.tol = 0.0;
+        let moving = if js >= 1 { match (run_fit(&q0, js), run_fit(&q0, js + 1)) {
+            (Ok((_, ga)), Ok((_, gb))) => {
+                let (ca, cb) = (ga.coef().unwrap().to_vec(), gb.coef().unwrap().to_vec());
+                let sz = ca.iter().fold(1.0f64, |m, v| m.max(v.abs()));
+                let step = ca.iter().zip(&cb).fold(0.0f64, |m, (a, b)| m.max((a - b).abs()));
+                if ca.iter().zip(&coef).all(|(a, b)| a.to_bits() == b.to_bits()) && step > (10.0 * tol.sqrt() + 1e-7) * sz { Some((step, cb)) } else { None }
+            }
+            _ => None } } else { None };
+        if let Some((step, cb)) = moving {
+            let j = bad[0];
+            st.bump(format!("{} {} Ok while the coefficients still move", blk, fname));
+            add(out, "status:ok-while-coefficients-still-moving", format!("fit returned Ok after {} iterations with coefficients {:?}; one more step of the same iteration gives {:?} (largest change {:e}, tolerance {:e}): the iteration has not converged, two consecutive deviances agreed by coincidence; score equation {} at the returned coefficients = {:e}, magnitude of its terms {:e}, allowed {:e}", js, coef, cb, step, tol, j, s[j], sc[j], tf * sc[j].max(1.0)), inp.clone());
+            return;
+        }
+        for &j in &bad {
+            add(out, &format!("{}score:{}", wtag, if alpha > 0.0 { "penalised-score-not-zero" } else { "score-not-zero" }),
+                format!("score equation {} at the returned coefficients: X^T W (y-mu) dmu/var - alpha*beta (intercept unpenalised) = {:e}, magnitude of its terms {:e}, allowed {:e} (coef {:?})", j, s[j], sc[j], tf * sc[j].max(1.0), coef), inp.clone());
+        }
+    }
+    // a diverged coefficient (an indicator column with all-zero counts, say) leaves a numerically singular information matrix: the score
+    // equation above is the property's claim there; deviance / standard errors / predictions are not compared on such fits
+    if diverged { return; }
+    // (c) Gaussian: (weighted, ridge) least squares
+    if fam == 0 {
+        let mut a = vec![0.0; p * p]; let mut b = vec![0.0; p];
+        for i in 0..n { let wi = pr.w.as_ref().map(|w| w[i]).unwrap_or(1.0); let yi = pr.y[i] - pr.off.as_ref().map(|o| o[i]).unwrap_or(0.0);
+            for j in 0..p { b[j] += pr.x[i * p + j] * wi * yi; for k in 0..p { a[j * p + k] += pr.x[i * p + j] * wi * pr.x[i * p + k]; } } }
+        for j in 1..p { a[j * p + j] += alpha; }
+        if let Some(bls) = gauss(&a, &b, p, 1) {
+            let sz = bls.iter().fold(1.0f64, |m, v| m.max(v.abs()));
+            for j in 0..p { if !((coef[j] - bls[j]).abs() <= (tf + 1e-6) * sz) {
+                add(out, &format!("{}gaussian:not-ridge-least-squares", wtag), format!("coefficient {} = {:e}, (weighted, ridge) least squares gives {:e}", j, coef[j], bls[j]), inp.clone()); } }
+        }
+    }
+    // (d) deviance at the fitted means; with prior weights: sum of w_i d(y_i, mu_i) (for frequency weights, the family's
+    //     deviance of the replicated data)
+    let dev = g.deviance().unwrap();
+    let dref = ref_deviance(&pr, &coef, false);
+    if pr.wkind == 0 {
+        if !((dev - dref).abs() <= tf * (dref.abs() + 1.0)) {
+            add(out, &format!("deviance:{}", if fam == 0 { "gaussian-not-residual-sum-of-squares" } else { "not-family-deviance" }),
+                format!("deviance() = {:e}, the family's deviance at the fitted means is {:e}", dev, dref), inp.clone());
+        }
+    } else {
+        let dw = ref_deviance(&pr, &coef, true);
+        if !((dev - dw).abs() <= tf * (dw.abs() + 1.0)) {
+            add(out, "weighted:deviance-ignores-weights", format!("deviance() = {:e} with {} weights; sum of w_i d_i = {:e}, unweighted sum = {:e}", dev, ["", "frequency", "real"][pr.wkind], dw, dref), inp.clone());
+        }
+    }
+    // (e) aic / bic / dispersion formulas from the reported deviance
+    let nn = pr.w.as_ref().map(|w| w.iter().sum::<f64>()).unwrap_or(n as f64).round();
+    let (aic, bic, disp) = (g.aic().unwrap(), g.bic().unwrap(), g.dispersion().unwrap());
+    let rel = |a: f64, b: f64, t: f64| (a - b).abs() <= t * (a.abs().max(b.abs()) + 1e-300);
+    if !rel(aic, dev + 2.0 * p as f64, 1e-12) { add(out, "aic:formula", format!("aic() = {:e}, deviance + 2p = {:e}", aic, dev + 2.0 * p as f64), inp.clone()); }
+    if !rel(bic, dev + p as f64 * nn.ln(), 1e-12) { add(out, "bic:formula", format!("bic() = {:e}, deviance + p ln n = {:e}", bic, dev + p as f64 * nn.ln()), inp.clone()); }
+    let dispref = if has_disp(fam) { dev / (nn - p as f64) } else { 1.0 };
+    if !rel(disp, dispref, 1e-12) { add(out, "dispersion:formula", format!("dispersion() = {:e}, expected {:e}", disp, dispref), inp.clone()); }
+    // (f) standard errors: sqrt diag (dispersion * inverse Fisher information at the fitted coefficients)
+    {
+        let dtrue = ref_deviance(&pr, &coef, true);
+        let disp_true = if has_disp(fam) { dtrue / (nn - p as f64) } else { 1.0 };
+        let h = ref_fisher(&pr, &coef);
+        let mut eye = vec![0.0; p * p]; for j in 0..p { eye[j * p + j] = 1.0; }
+        if let (Some(hi), Ok(se)) = (gauss(&h, &eye, p, p), catch(|| g.coef_standard_error().unwrap().to_vec())) {
+            for j in 0..p {
+                let sref = (disp_true * hi[j * p + j]).sqrt();
+                if !rel(se[j], sref, tf + 1e-6) {
+                    add(out, &format!("{}stderr:not-sqrt-diag-dispersion-inverse-information", wtag), format!("standard error {} = {:e}, sqrt(dispersion * [I^-1]_jj) = {:e}", j, se[j], sref), inp.clone());
+                }
+            }
+        }
+    }
+    // (g) predictions = inverse link of X.beta + offset (on the training design, so that stored offsets apply)
+    if let Ok(pred) = catch(|| g.predict(&pr.x).unwrap().to_vec()) {
+        let eta = ref_eta(&pr, &pr.x, pr.off.as_ref(), &coef);
+        for i in 0..n { let m = ref_mu(fam, eta[i]); if !rel(pred[i], m, 1e-11) { add(out, "predict:not-inverse-link", format!("prediction {} = {:e}, inverse link of x.beta + offset = {:e}", i, pred[i], m), inp.clone()); break; } }
+    } else { add(out, "predict:panics-on-training-design", "predict panicked on the design it was fitted on".into(), inp.clone()); }
+    // (g') predictions on a design the model has not seen (1..7 rows; only without stored offsets, whose length is that of the training data)
+    if pr.off.is_none() {
+        let m = 1 + rx.below(7) as usize;
+        let xn = design_matrix(rx, 40, p, pr.dkind)[..m * p].to_vec(); // the first m rows of a fresh 40-row design of the same kind
+        crumb(&format!("predict on new design {} after {}", json_floats(&xn), inp));
+        match catch(|| g.predict(&xn).unwrap().to_vec()) {
+            Ok(pred) => {
+                let eta = ref_eta(&pr, &xn, None, &coef);
+                if pred.len() != m { add(out, "predict:not-inverse-link", format!("{} predictions for a design of {} rows", pred.len(), m), inp.clone()); }
+                else { for i in 0..m { let mm = ref_mu(fam, eta[i]); if !rel(pred[i], mm, 1e-11) { add(out, "predict:not-inverse-link", format!("prediction {} on the new design {} = {:e}, inverse link of x.beta = {:e}", i, json_floats(&xn), pred[i], mm), inp.clone()); break; } } }
+            }
+            Err(_) => add(out, "predict:panics-on-new-design", format!("predict panicked on the valid {} x {} design {}", m, p, json_floats(&xn)), inp.clone()),
+        }
+    }
+    // (f') the whole covariance matrix = dispersion * inverse Fisher information (the standard errors are its diagonal): every entry,
+    //      relative to sqrt(c_jj c_kk), with twice the allowance of a standard error (a variance is its square)
+    {
+        let dtrue = ref_deviance(&pr, &coef, true);
+        let disp_true = if has_disp(fam) { dtrue / (nn - p as f64) } else { 1.0 };
+        let h = ref_fisher(&pr, &coef);
+        let mut eye = vec![0.0; p * p]; for j in 0..p { eye[j * p + j] = 1.0; }
+        if let (Some(hi), Ok(cov)) = (gauss(&h, &eye, p, p), catch(|| g.coef_covariance_matrix().unwrap())) {
+            if cov.len() != p * p { add(out, &format!("{}stderr:not-sqrt-diag-dispersion-inverse-information", wtag), format!("covariance matrix has {} entries, p = {}", cov.len(), p), inp.clone()); }
+            else { for j in 0..p { for k in 0..p {
+                let cref = disp_true * hi[j * p + k];
+                let scale = (disp_true * hi[j * p + j]).sqrt() * (disp_true * hi[k * p + k]).sqrt();
+                if !((cov[j * p + k] - cref).abs() <= 2.0 * (tf + 1e-6) * scale * (1.0 + 1e-9)) {
+                    add(out, &format!("{}stderr:not-sqrt-diag-dispersion-inverse-information", wtag), format!("covariance entry ({}, {}) = {:e}, dispersion * [I^-1]_jk = {:e} (scale sqrt(c_jj c_kk) = {:e})", j, k, cov[j * p + k], cref, scale), inp.clone());
+                }
+            } } }
+        }
+    }
+    // (g'') score(x, y) is the family's deviance of y at the predictions (unweighted), i.e. at the RETURNED coefficients
+    if pr.w.is_none() {
+        if let Ok(sc) = catch(|| g.score(&pr.x, &pr.y)) {
+            let want = ref_deviance(&pr, &coef, false);
+            if !((sc - want).abs() <= 1e-9 * (want.abs() + 1.0)) { add(out, "deviance:score-not-deviance-of-predictions", format!("score(x, y) = {:e}, the family's deviance at the predictions is {:e}", sc, want), inp.clone()); }
+        } else { add(out, "predict:panics-on-training-design", "score panicked on the design the model was fitted on".into(), inp.clone()); }
+    }
+    // (h) invariance under a permutation of the observations (a random one; on the audit's points also the reversal and the exchange
+    //     of the first and the last observation)
+    for kind in 0..(if audit { 3 } else { 1 }) {
+        let mut idx: Vec<usize> = (0..n).collect();
+        match kind {
+            0 => { for i in (1..n).rev() { let j = r.below(i as u64 + 1) as usize; idx.swap(i, j); } }
+            1 => idx.reverse(),
+            _ => idx.swap(0, n - 1),
+        }
+        let mut q = pr.clone();
+        for (k, &i) in idx.iter().enumerate() {
+            for j in 0..p { q.x[k * p + j] = pr.x[i * p + j]; }
+            q.y[k] = pr.y[i];
+            if let Some(w) = &pr.w { q.w.as_mut().unwrap()[k] = w[i]; }
+            if let Some(o) = &pr.off { q.off.as_mut().unwrap()[k] = o[i]; }
+        }
+        let how = ["reordering the observations", "reversing the order of the observations", "exchanging the first and the last observation"][kind];
+        match run_fit(&q, budget) {
+            Ok((true, g2)) => {
+                let c2 = g2.coef().unwrap();
+                let sz = coef.iter().fold(1.0f64, |m, v| m.max(v.abs()));
+                let far: Vec<usize> = (0..p).filter(|&j| !((coef[j] - c2[j]).abs() <= (10.0 * tol.sqrt() + 1e-7) * sz)).collect();
+                if !far.is_empty() {
+                    // the reordered fit stops on its own; what the property claims of it is a root of the (identical) score equations to within
+                    // the tolerance: two such roots further apart than the allowance lie along a flat direction of the likelihood
+                    // (n = 20..24, p = 6, polynomial columns) - a failure only if the reordered fit is not such a root
+                    let (s2, sc2) = ref_score(&pr, c2);
+                    let root = (0..p).all(|j| s2[j].is_finite() && sc2[j].is_finite() && s2[j].abs() <= tf * sc2[j].max(1.0));
+                    if root { st.bump(format!("{} {} permutation: coefficients apart but both roots of the same score equations", blk, fname)); }
+                    else { for &j in &far { add(out, "permutation:coefficients-change", format!("coefficient {} = {:e}, after {} {:e}, and the latter does not satisfy the score equations ({:?}, magnitudes {:?}, allowed fraction {:e})", j, coef[j], how, c2[j], s2, sc2, tf), inp.clone()); } }
+                }
+                let d2 = g2.deviance().unwrap();
+                if !((dev - d2).abs() <= (100.0 * tol + 1e-9) * (dev.abs() + 1.0)) { add(out, "permutation:deviance-changes", format!("deviance {:e}, after {} {:e}", dev, how, d2), inp.clone()); }
+            }
+            _ => {} // a different rounding may move the stopping iteration across max_iter; not a failure of the property
+        }
+    }
+    // (i) Ok means the convergence criterion (relative change of the penalised deviance < tol) really held between the last two iterations
+    {
+        let coef_after = |k: usize| -> Option<(bool, Vec<f64>)> {
+            if k == 0 { let mut c = vec![0.0; p]; c[0] = pr.y.iter().sum::<f64>() / n as f64; return Some((false, c)); }
+            match run_fit(&pr, k) { Ok((okk, gk)) => Some((okk, gk.coef().unwrap().to_vec())), Err(_) => None }
+        };
+        let jstop = first_ok(&pr, budget);
+        st.max(format!("{} {} max iterations to Ok", blk, fname), jstop as u64);
+        if jstop == 2 { st.bump(format!("{} {} Ok at iteration 2", blk, fname)); }
+        if jstop >= 2 {
+            if let (Some((_, c2)), Some((_, c1)), Some((_, c0))) = (coef_after(jstop), coef_after(jstop - 1), coef_after(jstop - 2)) {
+                // penalised deviance seen by iteration k: (weighted) deviance at the means of beta_{k-1}, penalty at beta_k
+                let pd = |prev: &Vec<f64>, cur: &Vec<f64>| ref_deviance(&pr, prev, true) + alpha * cur[1..].iter().map(|b| b * b).sum::<f64>();
+                let (d1, d0) = (pd(&c1, &c2), pd(&c0, &c1));
+                let relc = (d1 - d0).abs() / d0;
+                // what the two evaluations of each deviance (the implementation's, on which it decided, and this one) can differ by: rounding
+                // of sums whose terms cancel (Poisson counts in the hundreds: terms ~1e3 times the deviance); 1e-13 alone was enough as long as
+                // no such fit reached Ok
+                let noise = 32.0 * f64::EPSILON * (ref_deviance_terms(&pr, &c1) + ref_deviance_terms(&pr, &c0) + alpha * (c2[1..].iter().map(|b| b * b).sum::<f64>() + c1[1..].iter().map(|b| b * b).sum::<f64>())) / d0.abs();
+                if !(relc < tol * (1.0 + 1e-6) + 1e-13 + noise) { add(out, "status:ok-without-convergence", format!("fit returned Ok after {} iterations but the relative change of the penalised deviance (deviance + alpha*|beta_1..|^2) between the last two iterations is {:e} >= tolerance {:e}", jstop, relc, tol), inp.clone()); }
+            }
+        }
+    }
+    // (j) the public penalised deviance = deviance + alpha * sum of squares of the non-intercept coefficients
+    {
+        let eta = ref_eta(&pr, &pr.x, pr.off.as_ref(), &coef);
+        let mu: Vec<f64> = eta.iter().map(|e| ref_mu(fam, *e)).collect();
+        if let Ok(pd) = catch(|| FAMS[fam].0.penalized_deviance(&pr.y, &mu, alpha, &coef)) {
+            let want = ref_deviance(&pr, &coef, false) + alpha * coef[1..].iter().map(|b| b * b).sum::<f64>();
+            if !rel(pd, want, 1e-9) && p > 1 && alpha > 0.0 && fam != 0 { add(out, "penalized-deviance:penalty-not-alpha-times-squared-norm", format!("penalized_deviance = {:e}, deviance + alpha*|beta_1..|^2 = {:e}", pd, want), inp.clone()); }
+        }
+    }
+    // (l) explicit unit weights are the same fit as no weights, bit for bit (the weighted deviance takes the family's own
+    //     deviance when every weight is 1)
+    if pr.wkind == 0 && (it % 4 == 0 || audit) {
+        let mut q = pr.clone(); q.w = Some(vec![1.0; n]);
+        if let Ok((ok2, g2)) = run_fit(&q, budget) {
+            let c2 = g2.coef().unwrap();
+            let same = ok2 && c2.len() == coef.len() && c2.iter().zip(&coef).all(|(a, b)| a.to_bits() == b.to_bits())
+                && g2.deviance().unwrap().to_bits() == dev.to_bits() && g2.dispersion().unwrap().to_bits() == disp.to_bits();
+            if !same { add(out, "weighted:unit-weights-differ-from-no-weights", format!("with weights = [1; n]: coef {:?}, deviance {:e}; without weights: coef {:?}, deviance {:e}", c2, g2.deviance().unwrap(), coef, dev), inp.clone()); }
+        }
+    }
+    // (k) frequency weights = replicated observations
+    if pr.wkind == 1 && (it % 3 == 0 || audit) {
+        let w = pr.w.as_ref().unwrap();
+        let mut q = pr.clone(); q.x.clear(); q.y.clear(); q.w = None; q.wkind = 0; let mut qo = vec![];
+        for i in 0..n { for _ in 0..(w[i] as usize) { q.x.extend_from_slice(&pr.x[i * p..(i + 1) * p]); q.y.push(pr.y[i]); if let Some(o) = &pr.off { qo.push(o[i]); } } }
+        q.n = q.y.len(); if pr.off.is_some() { q.off = Some(qo); }
+        if let Ok((true, g2)) = run_fit(&q, budget) {
+            let c2 = g2.coef().unwrap();
+            let sz = coef.iter().fold(1.0f64, |m, v| m.max(v.abs()));
+            let far: Vec<usize> = (0..p).filter(|&j| !((coef[j] - c2[j]).abs() <= (10.0 * tol.sqrt() + 1e-6) * sz)).collect();
+            if !far.is_empty() {
+                // The two iterations start at different intercepts and stop independently. What the property claims of each is that it is a root
+                // of the score equations to within the tolerance, and the two problems have THE SAME score (C06_frequency_weights_gradient_information).
+                // A distance between two such roots beyond the allowance is a flat direction of the likelihood (n = 20, p = 6, polynomial columns:
+                // information matrix of condition ~1e7), not a failure - unless the replicated fit is NOT a root of the weighted equations.
+                let (s2, sc2) = ref_score(&pr, c2);
+                let root = (0..p).all(|j| s2[j].is_finite() && sc2[j].is_finite() && s2[j].abs() <= tf * sc2[j].max(1.0));
+                if root { st.bump(format!("{} {} replicated data: coefficients apart but both roots of the same score equations", blk, fname)); }
+                else { for &j in &far { add(out, "weighted:coefficients-differ-from-replicated-data", format!("coefficient {} = {:e} with frequency weights, {:e} on the replicated data, and the latter does not satisfy the weighted score equations ({:?}, magnitudes {:?}, allowed fraction {:e})", j, coef[j], c2[j], s2, sc2, tf), inp.clone()); } }
+            }
+            // (standard errors exist where the Fisher information has an inverse: same condition as in (f))
+            let info_invertible = { let h = ref_fisher(&pr, &coef); let mut eye = vec![0.0; p * p]; for j in 0..p { eye[j * p + j] = 1.0; } gauss(&h, &eye, p, p).is_some() };
+            if !info_invertible { st.bump(format!("{} {} replicated data: information singular, standard errors not compared", blk, fname)); }
+            else if let (Ok(se), Ok(se2)) = (catch(|| g.coef_standard_error().unwrap().to_vec()), catch(|| g2.coef_standard_error().unwrap().to_vec())) {
+                for j in 0..p { if !rel(se[j], se2[j], tf + 1e-5) { add(out, "weighted:stderr-differs-from-replicated-data", format!("standard error {} = {:e} with frequency weights, {:e} on the replicated data", j, se[j], se2[j]), inp.clone()); } }
+            }
+            // deviance, dispersion, AIC, BIC: the two fits stop independently, each within the tolerance of the common optimum
+            let (d2, disp2, aic2, bic2) = (g2.deviance().unwrap(), g2.dispersion().unwrap(), g2.aic().unwrap(), g2.bic().unwrap());
+            if !((dev - d2).abs() <= (tf + 1e-6) * (d2.abs() + 1.0)) { add(out, "weighted:deviance-differs-from-replicated-data", format!("deviance {:e} with frequency weights, {:e} on the replicated data", dev, d2), inp.clone()); }
+            if !((disp - disp2).abs() <= (tf + 1e-6) * (disp2.abs() + 1.0)) { add(out, "weighted:dispersion-differs-from-replicated-data", format!("dispersion {:e} with frequency weights, {:e} on the replicated data", disp, disp2), inp.clone()); }
+            if !((aic - aic2).abs() <= (tf + 1e-6) * (aic2.abs() + 1.0)) || !((bic - bic2).abs() <= (tf + 1e-6) * (bic2.abs() + 1.0)) { add(out, "weighted:aic-bic-differ-from-replicated-data", format!("aic, bic = {:e}, {:e} with frequency weights, {:e}, {:e} on the replicated data", aic, bic, aic2, bic2), inp.clone()); }
+        }
+    }
+}
+
 pub fn oracle(tier: &str, seed: u64) -> (u64, Vec<Finding>) {
     silence_stdout();
     let thorough = tier == "thorough";
     let mut r = Rng::new(seed ^ 0x0C06);
     let mut out: Vec<Finding> = vec![]; let mut tried = 0u64;
-    let add = |out: &mut Vec<Finding>, class: &str, what: String, input: String| { if !out.iter().any(|f| f.class == class) { out.push(Finding { class: class.into(), what, input }); } };
+    let mut st = Stats::default();
+    let mut rx = Rng::new(seed ^ 0x0C06_E47A); // the added evaluation points draw from their own stream: the first block is unchanged
     let iters = if thorough { 3000 } else { 300 };
     let alphas = [0.0, 0.1, 1.0, 10.0];
     for it in 0..iters {
@@ -186,169 +569,89 @@ pub fn oracle(tier: &str, seed: u64) -> (u64, Vec<Finding>) {
         let mode: u8 = if it % 10 == 3 && fam >= 2 { 1 } else if it % 10 == 7 && fam >= 2 { 2 } else { 0 };
         let (n, p) = if mode == 1 { (300, 6) } else { (n, p) };
         let pr = problem_mode(&mut r, fam, n, p, if mode == 1 { 0 } else { dk }, wkind, wo, alpha, tol, mode);
-        let inp = pr.describe();
-        let wtag = if pr.wkind == 0 { "" } else { "weighted:" };
         tried += 1;
-        crumb(&inp);
-        // (a) one iteration can never have converged: must be Err
-        match run_fit(&pr, 1) {
-            Ok((true, _)) => add(&mut out, "status:ok-after-one-iteration", "fit(.., max_iter = 1) returned Ok although no change of the deviance has been observed yet".into(), inp.clone()),
-            _ => {}
-        }
-        let (ok, g) = match run_fit(&pr, 100) { Ok(v) => v, Err(_) => continue };
-        if !ok { continue; }
-        let coef = g.coef().unwrap().to_vec();
-        if coef.iter().any(|c| !c.is_finite()) { add(&mut out, "status:ok-with-nonfinite-coefficients", format!("fit returned Ok with coefficients {:?}", coef), inp.clone()); continue; }
-        // the quantifier is over data for which the MLE exists (|beta| <= 1.5): a (quasi-)separated sample drives the
-        // coefficients off to infinity until the deviance stops changing; such fits are outside the property
-        // (Bernoulli only: for the other families the simulated data always have a finite MLE near the generating coefficients, and a
-        //  diverging coefficient of a count model drives its own score to 0, so the check below is still satisfied)
-        let diverged = coef.iter().any(|c| c.abs() > 10.0);
-        if fam == 1 && diverged { continue; }
-        let tf = tolfac(fam, tol);
-        // (b) penalised score equations at the returned coefficients
-        let (s, sc) = ref_score(&pr, &coef);
-        for j in 0..p {
-            if !(s[j].abs() <= tf * sc[j].max(1.0)) {
-                add(&mut out, &format!("{}score:{}", wtag, if alpha > 0.0 { "penalised-score-not-zero" } else { "score-not-zero" }),
-                    format!("score equation {} at the returned coefficients: X^T W (y-mu) dmu/var - alpha*beta (intercept unpenalised) = {:e}, magnitude of its terms {:e}, allowed {:e} (coef {:?})", j, s[j], sc[j], tf * sc[j].max(1.0), coef), inp.clone());
-            }
-        }
-        // a diverged coefficient (an indicator column with all-zero counts, say) leaves a numerically singular information matrix: the score
-        // equation above is the property's claim there; deviance / standard errors / predictions are not compared on such fits
-        if diverged { continue; }
-        // (c) Gaussian: (weighted, ridge) least squares
-        if fam == 0 {
-            let mut a = vec![0.0; p * p]; let mut b = vec![0.0; p];
-            for i in 0..n { let wi = pr.w.as_ref().map(|w| w[i]).unwrap_or(1.0); let yi = pr.y[i] - pr.off.as_ref().map(|o| o[i]).unwrap_or(0.0);
-                for j in 0..p { b[j] += pr.x[i * p + j] * wi * yi; for k in 0..p { a[j * p + k] += pr.x[i * p + j] * wi * pr.x[i * p + k]; } } }
-            for j in 1..p { a[j * p + j] += alpha; }
-            if let Some(bls) = gauss(&a, &b, p, 1) {
-                let sz = bls.iter().fold(1.0f64, |m, v| m.max(v.abs()));
-                for j in 0..p { if !((coef[j] - bls[j]).abs() <= (tf + 1e-6) * sz) {
-                    add(&mut out, &format!("{}gaussian:not-ridge-least-squares", wtag), format!("coefficient {} = {:e}, (weighted, ridge) least squares gives {:e}", j, coef[j], bls[j]), inp.clone()); } }
-            }
-        }
-        // (d) deviance at the fitted means; with prior weights: sum of w_i d(y_i, mu_i) (for frequency weights, the family's
-        //     deviance of the replicated data)
-        let dev = g.deviance().unwrap();
-        let dref = ref_deviance(&pr, &coef, false);
-        if pr.wkind == 0 {
-            if !((dev - dref).abs() <= tf * (dref.abs() + 1.0)) {
-                add(&mut out, &format!("deviance:{}", if fam == 0 { "gaussian-not-residual-sum-of-squares" } else { "not-family-deviance" }),
-                    format!("deviance() = {:e}, the family's deviance at the fitted means is {:e}", dev, dref), inp.clone());
-            }
-        } else {
-            let dw = ref_deviance(&pr, &coef, true);
-            if !((dev - dw).abs() <= tf * (dw.abs() + 1.0)) {
-                add(&mut out, "weighted:deviance-ignores-weights", format!("deviance() = {:e} with {} weights; sum of w_i d_i = {:e}, unweighted sum = {:e}", dev, ["", "frequency", "real"][pr.wkind], dw, dref), inp.clone());
-            }
-        }
-        // (e) aic / bic / dispersion formulas from the reported deviance
-        let nn = pr.w.as_ref().map(|w| w.iter().sum::<f64>()).unwrap_or(n as f64).round();
-        let (aic, bic, disp) = (g.aic().unwrap(), g.bic().unwrap(), g.dispersion().unwrap());
-        let rel = |a: f64, b: f64, t: f64| (a - b).abs() <= t * (a.abs().max(b.abs()) + 1e-300);
-        if !rel(aic, dev + 2.0 * p as f64, 1e-12) { add(&mut out, "aic:formula", format!("aic() = {:e}, deviance + 2p = {:e}", aic, dev + 2.0 * p as f64), inp.clone()); }
-        if !rel(bic, dev + p as f64 * nn.ln(), 1e-12) { add(&mut out, "bic:formula", format!("bic() = {:e}, deviance + p ln n = {:e}", bic, dev + p as f64 * nn.ln()), inp.clone()); }
-        let dispref = if has_disp(fam) { dev / (nn - p as f64) } else { 1.0 };
-        if !rel(disp, dispref, 1e-12) { add(&mut out, "dispersion:formula", format!("dispersion() = {:e}, expected {:e}", disp, dispref), inp.clone()); }
-        // (f) standard errors: sqrt diag (dispersion * inverse Fisher information at the fitted coefficients)
-        {
-            let dtrue = ref_deviance(&pr, &coef, true);
-            let disp_true = if has_disp(fam) { dtrue / (nn - p as f64) } else { 1.0 };
-            let h = ref_fisher(&pr, &coef);
-            let mut eye = vec![0.0; p * p]; for j in 0..p { eye[j * p + j] = 1.0; }
-            if let (Some(hi), Ok(se)) = (gauss(&h, &eye, p, p), catch(|| g.coef_standard_error().unwrap().to_vec())) {
-                for j in 0..p {
-                    let sref = (disp_true * hi[j * p + j]).sqrt();
-                    if !rel(se[j], sref, tf + 1e-6) {
-                        add(&mut out, &format!("{}stderr:not-sqrt-diag-dispersion-inverse-information", wtag), format!("standard error {} = {:e}, sqrt(dispersion * [I^-1]_jj) = {:e}", j, se[j], sref), inp.clone());
-                    }
-                }
-            }
-        }
-        // (g) predictions = inverse link of X.beta + offset (on the training design, so that stored offsets apply)
-        if let Ok(pred) = catch(|| g.predict(&pr.x).unwrap().to_vec()) {
-            let eta = ref_eta(&pr, &pr.x, pr.off.as_ref(), &coef);
-            for i in 0..n { let m = ref_mu(fam, eta[i]); if !rel(pred[i], m, 1e-11) { add(&mut out, "predict:not-inverse-link", format!("prediction {} = {:e}, inverse link of x.beta + offset = {:e}", i, pred[i], m), inp.clone()); break; } }
-        } else { add(&mut out, "predict:panics-on-training-design", "predict panicked on the design it was fitted on".into(), inp.clone()); }
-        // (h) invariance under a permutation of the observations
-        {
-            let mut idx: Vec<usize> = (0..n).collect();
-            for i in (1..n).rev() { let j = r.below(i as u64 + 1) as usize; idx.swap(i, j); }
-            let mut q = pr.clone();
-            for (k, &i) in idx.iter().enumerate() {
-                for j in 0..p { q.x[k * p + j] = pr.x[i * p + j]; }
-                q.y[k] = pr.y[i];
-                if let Some(w) = &pr.w { q.w.as_mut().unwrap()[k] = w[i]; }
-                if let Some(o) = &pr.off { q.off.as_mut().unwrap()[k] = o[i]; }
-            }
-            match run_fit(&q, 100) {
-                Ok((true, g2)) => {
-                    let c2 = g2.coef().unwrap();
-                    let sz = coef.iter().fold(1.0f64, |m, v| m.max(v.abs()));
-                    for j in 0..p { if !((coef[j] - c2[j]).abs() <= (10.0 * tol.sqrt() + 1e-7) * sz) {
-                        add(&mut out, "permutation:coefficients-change", format!("coefficient {} = {:e}, after reordering the observations {:e}", j, coef[j], c2[j]), inp.clone()); } }
-                    let d2 = g2.deviance().unwrap();
-                    if !((dev - d2).abs() <= (100.0 * tol + 1e-9) * (dev.abs() + 1.0)) { add(&mut out, "permutation:deviance-changes", format!("deviance {:e}, after reordering {:e}", dev, d2), inp.clone()); }
-                }
-                _ => {} // a different rounding may move the stopping iteration across max_iter; not a failure of the property
-            }
-        }
-        // (i) Ok means the convergence criterion (relative change of the penalised deviance < tol) really held between the last two iterations
-        {
-            let mut traj: Vec<Vec<f64>> = vec![]; let mut jstop = 0;
-            for k in 1..=100 { match run_fit(&pr, k) { Ok((okk, gk)) => { traj.push(gk.coef().unwrap().to_vec()); if okk { jstop = k; break; } } Err(_) => break } }
-            if jstop >= 3 {
-                // penalised deviance seen by iteration k: (weighted) deviance at the means of beta_{k-1}, penalty at beta_k
-                let pd = |k: usize| ref_deviance(&pr, &traj[k - 2], true) + alpha * traj[k - 1][1..].iter().map(|b| b * b).sum::<f64>();
-                let (d1, d0) = (pd(jstop), pd(jstop - 1));
-                let relc = (d1 - d0).abs() / d0;
-                if !(relc < tol * (1.0 + 1e-6) + 1e-13) { add(&mut out, "status:ok-without-convergence", format!("fit returned Ok after {} iterations but the relative change of the penalised deviance (deviance + alpha*|beta_1..|^2) between the last two iterations is {:e} >= tolerance {:e}", jstop, relc, tol), inp.clone()); }
-            }
-        }
-        // (j) the public penalised deviance = deviance + alpha * sum of squares of the non-intercept coefficients
-        {
-            let eta = ref_eta(&pr, &pr.x, pr.off.as_ref(), &coef);
-            let mu: Vec<f64> = eta.iter().map(|e| ref_mu(fam, *e)).collect();
-            if let Ok(pd) = catch(|| FAMS[fam].0.penalized_deviance(&pr.y, &mu, alpha, &coef)) {
-                let want = ref_deviance(&pr, &coef, false) + alpha * coef[1..].iter().map(|b| b * b).sum::<f64>();
-                if !rel(pd, want, 1e-9) && p > 1 && alpha > 0.0 && fam != 0 { add(&mut out, "penalized-deviance:penalty-not-alpha-times-squared-norm", format!("penalized_deviance = {:e}, deviance + alpha*|beta_1..|^2 = {:e}", pd, want), inp.clone()); }
-            }
-        }
-        // (l) explicit unit weights are the same fit as no weights, bit for bit (the weighted deviance takes the family's own
-        //     deviance when every weight is 1)
-        if pr.wkind == 0 && it % 4 == 0 {
-            let mut q = pr.clone(); q.w = Some(vec![1.0; n]);
-            if let Ok((ok2, g2)) = run_fit(&q, 100) {
-                let c2 = g2.coef().unwrap();
-                let same = ok2 && c2.len() == coef.len() && c2.iter().zip(&coef).all(|(a, b)| a.to_bits() == b.to_bits())
-                    && g2.deviance().unwrap().to_bits() == dev.to_bits() && g2.dispersion().unwrap().to_bits() == disp.to_bits();
-                if !same { add(&mut out, "weighted:unit-weights-differ-from-no-weights", format!("with weights = [1; n]: coef {:?}, deviance {:e}; without weights: coef {:?}, deviance {:e}", c2, g2.deviance().unwrap(), coef, dev), inp.clone()); }
-            }
-        }
-        // (k) frequency weights = replicated observations
-        if pr.wkind == 1 && it % 3 == 0 {
-            let w = pr.w.as_ref().unwrap();
-            let mut q = pr.clone(); q.x.clear(); q.y.clear(); q.w = None; q.wkind = 0; let mut qo = vec![];
-            for i in 0..n { for _ in 0..(w[i] as usize) { q.x.extend_from_slice(&pr.x[i * p..(i + 1) * p]); q.y.push(pr.y[i]); if let Some(o) = &pr.off { qo.push(o[i]); } } }
-            q.n = q.y.len(); if pr.off.is_some() { q.off = Some(qo); }
-            if let Ok((true, g2)) = run_fit(&q, 100) {
-                let c2 = g2.coef().unwrap();
-                let sz = coef.iter().fold(1.0f64, |m, v| m.max(v.abs()));
-                for j in 0..p { if !((coef[j] - c2[j]).abs() <= (10.0 * tol.sqrt() + 1e-6) * sz) {
-                    add(&mut out, "weighted:coefficients-differ-from-replicated-data", format!("coefficient {} = {:e} with frequency weights, {:e} on the replicated data", j, coef[j], c2[j]), inp.clone()); } }
-                if let (Ok(se), Ok(se2)) = (catch(|| g.coef_standard_error().unwrap().to_vec()), catch(|| g2.coef_standard_error().unwrap().to_vec())) {
-                    for j in 0..p { if !rel(se[j], se2[j], tf + 1e-5) { add(&mut out, "weighted:stderr-differs-from-replicated-data", format!("standard error {} = {:e} with frequency weights, {:e} on the replicated data", j, se[j], se2[j]), inp.clone()); } }
-                }
-                // deviance, dispersion, AIC, BIC: the two fits stop independently, each within the tolerance of the common optimum
-                let (d2, disp2, aic2, bic2) = (g2.deviance().unwrap(), g2.dispersion().unwrap(), g2.aic().unwrap(), g2.bic().unwrap());
-                if !((dev - d2).abs() <= (tf + 1e-6) * (d2.abs() + 1.0)) { add(&mut out, "weighted:deviance-differs-from-replicated-data", format!("deviance {:e} with frequency weights, {:e} on the replicated data", dev, d2), inp.clone()); }
-                if !((disp - disp2).abs() <= (tf + 1e-6) * (disp2.abs() + 1.0)) { add(&mut out, "weighted:dispersion-differs-from-replicated-data", format!("dispersion {:e} with frequency weights, {:e} on the replicated data", disp, disp2), inp.clone()); }
-                if !((aic - aic2).abs() <= (tf + 1e-6) * (aic2.abs() + 1.0)) || !((bic - bic2).abs() <= (tf + 1e-6) * (bic2.abs() + 1.0)) { add(&mut out, "weighted:aic-bic-differ-from-replicated-data", format!("aic, bic = {:e}, {:e} with frequency weights, {:e}, {:e} on the replicated data", aic, bic, aic2, bic2), inp.clone()); }
-            }
-        }
+        examine(&pr, it, &mut r, &mut rx, &mut out, &mut st, &format!("A{}", mode), false);
     }
+    // ---- coverage audit: evaluation points the quantifier names and the block above does not reach ------------------------
+    // (in the block above `it % 10 == 9 / 3 / 7` forces `it` odd, hence an odd family index: the rows n > 119, the strong-signal mode and
+    //  the exposure-offset mode only ever met Bernoulli / Poisson / Exponential, never Gaussian / QuasiPoisson / Gamma, the three families
+    //  with a dispersion; and every exposure-offset fit ran out of its 100 iterations, so that mode was never examined at all)
+    let mut q = Rng::new(seed ^ 0x0C06_B10C);
+    let reps = if thorough { 6 } else { 1 };
+    let plain = Cfg { bmode: 0, wmode: 0, omode: 0, noise: 0.7 };
+    let mut k = 0usize; // running index of the added points (thins (k)/(l) like `it`)
+    let tol_of = |e: usize| 10f64.powi(-((5 + e % 10) as i32));
+    for rep in 0..reps {
+        // B. every combination family x penalty x weights (none / frequency / real) x offsets (none / +-0.5), n over the whole of 20..500
+        for fam in 0..6 { for (ia, &alpha) in alphas.iter().enumerate() { for wmode in 0..3u8 { for omode in 0..2u8 {
+            let n = 20 + q.below(481) as usize; let p = 1 + q.below(6) as usize; let dk = q.below(4) as usize;
+            let pr = problem_x(&mut q, fam, n, p, dk, Cfg { wmode, omode, ..plain }, alpha, tol_of(k + ia + rep));
+            tried += 1; k += 1; examine(&pr, k, &mut q, &mut rx, &mut out, &mut st, "B", true);
+        } } } }
+        // C. first and last size of each range: n in {20, 21, 499, 500} x p in {1, 2, 5, 6}, every family, every design kind in turn
+        for fam in 0..6 { for (i_n, &n) in [20usize, 21, 499, 500].iter().enumerate() { for (i_p, &p) in [1usize, 2, 5, 6].iter().enumerate() {
+            if !thorough && (i_n + i_p + fam) % 2 == 1 { continue; }
+            let c = Cfg { wmode: [0, 1, 2][(k + rep) % 3], omode: [0, 1][(k / 3) % 2], ..plain };
+            let pr = problem_x(&mut q, fam, n, p, (k + rep) % 4, c, alphas[(k / 2 + rep) % 4], tol_of(k + rep));
+            tried += 1; k += 1; examine(&pr, k, &mut q, &mut rx, &mut out, &mut st, "C", true);
+        } } }
+        // D. coefficients over the whole stated box |beta_j| <= 1.5 (every column at once, intercept included; and its corners), and the
+        //    opposite end, no signal at all (slopes 0); every family, p = 1..6, n in 20..500
+        for fam in 0..6 { for bmode in 1..=3u8 { for j in 0..6 {
+            let n = if j % 2 == 0 { 20 + q.below(100) as usize } else { 120 + q.below(381) as usize };
+            let p = if bmode == 3 { 1 + q.below(6) as usize } else { 1 + (j + fam) % 6 };
+            let c = Cfg { bmode, wmode: [0, 0, 1, 2][q.below(4) as usize], omode: if q.coin(0.3) { 1 } else { 0 }, noise: 0.7 };
+            let dk = q.below(4) as usize; let pr = problem_x(&mut q, fam, n, p, dk, c, alphas[(k + rep) % 4], tol_of(k / 4 + rep));
+            tried += 1; k += 1; examine(&pr, k, &mut q, &mut rx, &mut out, &mut st, &format!("D{}", bmode), true);
+        } } }
+        // E. offsets beyond +-0.5: exposure offsets log(100..800) with counts in the hundreds for ALL FOUR log-link families (larger iteration
+        //    budget, see `examine`), and offsets in +-2 for every family
+        for fam in 0..6 { for omode in 2..=3u8 { for j in 0..4 {
+            if omode == 2 && fam < 2 { continue; }
+            let n = 20 + q.below(if j == 3 { 481 } else { 100 }) as usize; let p = 1 + q.below(6) as usize;
+            let c = Cfg { omode, wmode: [0, 1, 2, 0][j], ..plain };
+            let dk = q.below(4) as usize; let pr = problem_x(&mut q, fam, n, p, dk, c, alphas[(k + rep) % 4], tol_of(k / 4 + rep));
+            tried += 1; k += 1; examine(&pr, k, &mut q, &mut rx, &mut out, &mut st, &format!("E{}", omode), true);
+        } } }
+        // I. the same exposure offsets on the smallest designs (p = 1: intercept and offset only; p = 2), Poisson and QuasiPoisson, Gamma and
+        //    Exponential: with one column the information "matrix" is a single sum, so whatever happens to that sum decides the step alone
+        for fam in 2..6 { for j in 0..6 {
+            let n = 20 + q.below(if j == 5 { 481 } else { 60 }) as usize; let p = if j < 4 { 1 } else { 2 };
+            let c = Cfg { omode: 2, wmode: [0, 0, 1, 2, 0, 0][j], ..plain };
+            let pr = problem_x(&mut q, fam, n, p, 0, c, alphas[(k + rep) % 4], tol_of(k / 2 + rep));
+            tried += 1; k += 1; examine(&pr, k, &mut q, &mut rx, &mut out, &mut st, "I", true);
+        } }
+        // J. the most over-parametrised corner of the quantifier with the non-canonical (log) link of Gamma / Exponential: n = 20..24, p = 6,
+        //    polynomial columns, no penalty - where Fisher scoring is least contractive
+        for fam in 4..6 { for j in 0..12 {
+            let c = Cfg { wmode: [0, 2, 1][j % 3], omode: [0, 1][j % 2], ..plain };
+            let pr = problem_x(&mut q, fam, 20 + j % 5, 6, 1, c, 0.0, tol_of(j + rep));
+            tried += 1; k += 1; examine(&pr, k, &mut q, &mut rx, &mut out, &mut st, "J", true);
+        } }
+        // F. weights beyond 1..3 / 0.5..2: frequencies with zeros (dropped observations), frequencies up to 12, real weights over
+        //    0.05..20, a constant weight 2; with offsets and penalty in turn
+        for fam in 0..6 { for wmode in 3..=6u8 { for j in 0..2 {
+            let n = 20 + q.below(if j == 1 { 481 } else { 100 }) as usize; let p = 1 + q.below(6) as usize;
+            let c = Cfg { wmode, omode: [0, 1][(k + rep) % 2], ..plain };
+            let dk = q.below(4) as usize; let pr = problem_x(&mut q, fam, n, p, dk, c, alphas[(k / 2 + rep) % 4], tol_of(k / 8 + rep));
+            tried += 1; k += 1; examine(&pr, k, &mut q, &mut rx, &mut out, &mut st, &format!("F{}", wmode), true);
+        } } }
+        // G. every tolerance 1e-5 .. 1e-14 with every family (the draw above left some pairs to chance)
+        for fam in 0..6 { for e in 0..10usize {
+            let n = 20 + q.below(100) as usize; let p = 1 + q.below(6) as usize;
+            let c = Cfg { wmode: [0, 0, 1, 2][q.below(4) as usize], omode: if q.coin(0.4) { 1 } else { 0 }, ..plain };
+            let dk = q.below(4) as usize; let pr = problem_x(&mut q, fam, n, p, dk, c, alphas[(k + rep) % 4], tol_of(e));
+            tried += 1; k += 1; examine(&pr, k, &mut q, &mut rx, &mut out, &mut st, "G", true);
+        } }
+        // H. Gaussian responses at other noise levels than 0.7 (nearly exact fit, and noise far above the signal)
+        for &noise in &[1e-3, 0.05, 5.0, 50.0] { for j in 0..2 {
+            let n = 20 + q.below(if j == 1 { 481 } else { 100 }) as usize; let p = 1 + q.below(6) as usize;
+            let c = Cfg { noise, wmode: [0, 1, 2][(k + rep) % 3], omode: [0, 1][k % 2], bmode: 0 };
+            let dk = q.below(4) as usize; let pr = problem_x(&mut q, 0, n, p, dk, c, alphas[(k / 2 + rep) % 4], tol_of(k + rep));
+            tried += 1; k += 1; examine(&pr, k, &mut q, &mut rx, &mut out, &mut st, "H", true);
+        } }
+    }
+    if std::env::var("HARNESS_C06_STATS").is_ok() { for (k, v) in &st.c { eprintln!("{:>8}  {}", v, k); } }
     (tried, out)
 }
 
@@ -369,7 +672,7 @@ fn step_args(pr: &Prob, coef: &[f64]) -> (Vec<f64>, Vec<f64>, Vec<f64>, Vec<f64>
     let mut dbeta = vec![0.0; p];
     for i in 0..n { let wr = (w[i] * (pr.y[i] - mu[i])) * (dmu[i] / var[i]); for j in 0..p { dbeta[j] -= pr.x[i * p + j] * wr; } }
     let mut wx = pr.x.clone();
-    for i in 0..n { let ww = (w[i] * (dmu[i] * dmu[i])) / var[i]; for j in 0..p { wx[i * p + j] *= ww; } }
+    for i in 0..n { let ww = (w[i] * dmu[i]) * (dmu[i] / var[i]); for j in 0..p { wx[i * p + j] *= ww; } }
     let mut ddbeta = matmul(&pr.x, &wx, n, n, true, false);
     let info = ddbeta.clone();
     if pr.alpha > 0.0 { for j in 1..p { dbeta[j] += pr.alpha * coef[j]; } for j in 1..p { ddbeta[j * p + j] += pr.alpha; } }
@@ -515,13 +818,26 @@ pub fn gen(tier: &str, seed: u64, outdir: &str) {
     let nprob = if thorough { 400 } else { 48 };
     for i in 0..nprob {
         let fam = i % 6;
-        let n = if i % 12 == 11 { 100 + r.below(if thorough { 401 } else { 101 }) as usize } else { 20 + r.below(29) as usize };
+        // (every 11th problem is large: 11 is prime to 6, so the large designs rotate over the six families; `i % 12 == 11` met Exponential only)
+        let n = if i % 11 == 10 { 100 + r.below(if thorough { 401 } else { 101 }) as usize } else { 20 + r.below(29) as usize };
         let p = 1 + (i / 6) % 6;
         let alpha = alphas[(i / 2) % 4];
         let tol = 10f64.powi(-(5 + r.below(10) as i32));
         let wkind = [0, 1, 2][(i / 3) % 3];
         let pr = problem(&mut r, fam, n, p, (i / 4) % 4, wkind, i % 5 < 2, alpha, tol);
         trajectory(&mut cs, &pr, if thorough { 12 } else { 8 }, true, FAMS[fam].1, &mut r);
+    }
+    // 2b. coverage audit: the regimes of the quantifier the grid above never draws (one short trajectory each at the quick tier): every
+    //     coefficient anywhere in / at the corners of |beta_j| <= 1.5, frequencies with zeros and up to 12, real weights over 0.05..20,
+    //     offsets in +-2 and exposure offsets with counts in the hundreds (the start at intercept = mean(y) overflows there: NaN trajectories)
+    for i in 0..(if thorough { 60 } else { 6 }) {
+        let fam = (i + i / 6) % 6;
+        let c = Cfg { bmode: [1, 2, 1, 2, 0, 0][i % 6], wmode: [3, 4, 5, 0, 6, 3][(i + i / 6) % 6], omode: if i % 6 == 4 && fam >= 2 { 2 } else { [0, 3, 1][i % 3] }, noise: [0.7, 0.05, 5.0][i % 3] };
+        let (n, p) = (20 + r.below(21) as usize, 2 + r.below(5) as usize);
+        let dk = r.below(4) as usize;
+        let tol = 10f64.powi(-(5 + r.below(10) as i32));
+        let pr = problem_x(&mut r, fam, n, p, dk, c, alphas[(i + i / 6) % 4], tol);
+        trajectory(&mut cs, &pr, if thorough { 10 } else { 5 }, i % 2 == 0, &format!("audit-{}", FAMS[fam].1), &mut r);
     }
     // 3. malformed / degenerate stream: wrong lengths, not a design matrix, empty data, special values, alpha <= 0 / NaN
     for i in 0..(60 * mult) {
@@ -543,5 +859,5 @@ pub fn gen(tier: &str, seed: u64, outdir: &str) {
         }
         trajectory(&mut cs, &pr, 3, i % 2 == 0, "malformed", &mut r);
     }
-    cs.write(outdir, if thorough { 60 } else { 40 }, "six families x alpha in {0,0.1,1,10} x weights none/integer/real x offsets on/off x designs (standardised random, polynomial, indicator, mixed), n in 20..48 mostly and up to 200 (quick) / 500 (thorough), p in 1..6, tolerance 1e-5..1e-14, responses simulated from the model; per problem one step case per iteration k -> k+1 (model's one-step map from the observed state, inner solve/inverse answered from the recorded calls of the crate's own solve/invert_matrix) and full runs with the exact and a spare iteration budget; every step case and every full run ALSO end to end (tags e2e-*: no table of inner calls, solve / invert_matrix computed inside Coq by C01's executable models, libm still from the recorded table); family tables on vectors of every length residue mod 8 with +-0, +-inf, NaN, subnormals; malformed stream (wrong lengths, not a design matrix, empty data, NaN/inf entries, alpha <= 0 or NaN); non-trivial = a step k >= 1 whose coefficients change; distinct by hash");
+    cs.write(outdir, if thorough { 60 } else { 40 }, "six families x alpha in {0,0.1,1,10} x weights none/integer/real x offsets on/off x designs (standardised random, polynomial, indicator, mixed), n in 20..48 mostly and up to 200 (quick) / 500 (thorough), p in 1..6, tolerance 1e-5..1e-14, responses simulated from the model; the large designs rotate over the six families; plus short trajectories (tags audit-*) with every coefficient in / at the corners of |beta_j| <= 1.5, frequency weights with zeros and up to 12, real weights over 0.05..20, offsets in +-2 and exposure offsets log(100..800); per problem one step case per iteration k -> k+1 (model's one-step map from the observed state, inner solve/inverse answered from the recorded calls of the crate's own solve/invert_matrix) and full runs with the exact and a spare iteration budget; every step case and every full run ALSO end to end (tags e2e-*: no table of inner calls, solve / invert_matrix computed inside Coq by C01's executable models, libm still from the recorded table); family tables on vectors of every length residue mod 8 with +-0, +-inf, NaN, subnormals; malformed stream (wrong lengths, not a design matrix, empty data, NaN/inf entries, alpha <= 0 or NaN); non-trivial = a step k >= 1 whose coefficients change; distinct by hash");
 }
